@@ -49,13 +49,24 @@ use std::collections::BTreeMap;
 
 type Mgr = AbstractStreamManager<StreamImpl>;
 
-/// receive window the victim advertises per stream (all stream kinds)
-const STREAM_WIN: u64 = 8;
+/// receive windows the victim advertises per stream; the three transport parameters are pairwise
+/// different so that a mix-up of the perspectives (bidi_local vs bidi_remote vs uni) is visible
+const WIN_BIDI_REMOTE: u64 = 8; // peer-initiated bidirectional streams
+const WIN_UNI: u64 = 7; // peer-initiated unidirectional streams
+const WIN_BIDI_LOCAL: u64 = 10; // receiving half of the victim's own bidirectional streams
+/// window of a peer-initiated stream of the type
+fn win(ty: Ty) -> u64 {
+    match ty {
+        Ty::Bidi => WIN_BIDI_REMOTE,
+        Ty::Uni => WIN_UNI,
+    }
+}
 /// connection receive window the victim advertises
 const CONN_WIN: u64 = 12;
 /// streams of each type the peer may open
 const MAX_PEER_STREAMS: u64 = 2;
 const JUNK: u8 = 0xEE;
+const LOCAL_RX_KEY: u64 = 0x10CA2;
 
 #[derive(Clone, Copy, Debug, PartialEq, Eq)]
 pub struct Cfg {
@@ -69,7 +80,9 @@ impl Cfg {
     fn json(&self) -> Json {
         Json::obj()
             .set("name", self.name)
-            .set("stream_window", STREAM_WIN)
+            .set("stream_window_bidi_remote", WIN_BIDI_REMOTE)
+            .set("stream_window_uni", WIN_UNI)
+            .set("stream_window_bidi_local", WIN_BIDI_LOCAL)
             .set("connection_window", CONN_WIN)
             .set("max_peer_streams", MAX_PEER_STREAMS)
     }
@@ -137,9 +150,15 @@ pub enum Op {
     AppRead(Ty, u8),
     /// application opens the first local stream of the type and writes 3 bytes
     AppOpenLocal(Ty),
+    /// peer sends the next 3 in-order bytes on the victim's own bidirectional stream #0
+    PeerDataLocal,
+    /// application reads from its own bidirectional stream #0
+    AppReadLocal,
     // ---- adversarial (one RFC 9000 rule broken each)
     /// 4.1 / 19.10: stream data ending 1 byte above the advertised stream limit
     OverStreamLimit(Ty),
+    /// 4.1 / 19.10: data ending 1 byte above the limit advertised for the victim's own bidirectional stream
+    OverLocalStreamLimit,
     /// 4.1 / 19.9: every stream inside its own limit, the sum 1 byte above the connection limit
     OverConnLimit,
     /// 4.6 / 19.11: STREAM for a peer-initiated stream index >= the advertised MAX_STREAMS
@@ -189,6 +208,8 @@ struct Model {
     adv_conn: u64,
     adv_max_streams: [u64; 2],
     local_opened: [bool; 2],
+    /// what the peer sent / the application read on the victim's own bidirectional stream #0
+    local_rx: PeerStream,
     /// the connection is over (a transport error was raised, or an offending frame was accepted)
     dead: bool,
     /// an oracle clause failed in this state (recorded in the collector)
@@ -205,22 +226,23 @@ impl Model {
             adv_conn: CONN_WIN,
             adv_max_streams: [MAX_PEER_STREAMS; 2],
             local_opened: [false; 2],
+            local_rx: PeerStream { adv_limit: WIN_BIDI_LOCAL, ..Default::default() },
             dead: false,
             violated: false,
             error_code: None,
         }
     }
     fn stream(&mut self, ty: Ty, idx: u8) -> &mut PeerStream {
-        self.peer.entry((ty, idx)).or_insert_with(|| PeerStream { adv_limit: STREAM_WIN, ..Default::default() })
+        self.peer.entry((ty, idx)).or_insert_with(|| PeerStream { adv_limit: win(ty), ..Default::default() })
     }
     fn get(&self, ty: Ty, idx: u8) -> PeerStream {
-        self.peer.get(&(ty, idx)).cloned().unwrap_or(PeerStream { adv_limit: STREAM_WIN, ..Default::default() })
+        self.peer.get(&(ty, idx)).cloned().unwrap_or(PeerStream { adv_limit: win(ty), ..Default::default() })
     }
     fn conn_sum(&self) -> u64 {
-        self.peer.values().map(|s| s.end).sum()
+        self.peer.values().map(|s| s.end).sum::<u64>() + self.local_rx.end
     }
     fn consumed_sum(&self) -> u64 {
-        self.peer.values().map(|s| s.read).sum()
+        self.peer.values().map(|s| s.read).sum::<u64>() + self.local_rx.read
     }
     /// peer-initiated streams of the type that are closed from the victim's point of view.
     /// Unidirectional: all data up to the final size was read. Bidirectional streams also need the
@@ -257,9 +279,9 @@ pub struct Adv {
 fn local_limits() -> InitialFlowControlLimits {
     InitialFlowControlLimits {
         stream_limits: InitialStreamLimits {
-            max_data_bidi_local: VarInt::new(STREAM_WIN).unwrap(),
-            max_data_bidi_remote: VarInt::new(STREAM_WIN).unwrap(),
-            max_data_uni: VarInt::new(STREAM_WIN).unwrap(),
+            max_data_bidi_local: VarInt::new(WIN_BIDI_LOCAL).unwrap(),
+            max_data_bidi_remote: VarInt::new(WIN_BIDI_REMOTE).unwrap(),
+            max_data_uni: VarInt::new(WIN_UNI).unwrap(),
         },
         max_data: VarInt::new(CONN_WIN).unwrap(),
         max_open_remote_bidirectional_streams: VarInt::new(MAX_PEER_STREAMS).unwrap(),
@@ -392,6 +414,13 @@ impl Adv {
                 None => break,
             }
         }
+        if self.m.local_opened[Ty::Bidi.ix()] {
+            for _ in 0..4 {
+                if !self.read_local(what)? {
+                    break;
+                }
+            }
+        }
         let keys: Vec<(Ty, u8)> = self.m.peer.iter().filter(|(_, s)| s.accepted).map(|(k, _)| *k).collect();
         for (ty, idx) in keys {
             for _ in 0..4 {
@@ -478,6 +507,43 @@ impl Adv {
         }
     }
 
+    /// one read on the victim's own bidirectional stream #0; returns true when bytes were returned
+    fn read_local(&mut self, what: &str) -> Result<bool, Violation> {
+        let id = self.local_id(Ty::Bidi, 0);
+        let mut chunks = [Bytes::new()];
+        let mut req = ops::Request::default();
+        req.receive(&mut chunks);
+        let cx = Context::from_waker(&self.waker);
+        let handle = self.wakeup_handle.clone();
+        let mut api = ConnectionApiCallContext::from_wakeup_handle(&handle);
+        let res = self.mgr.poll_request(id, &mut api, &mut req, Some(&cx));
+        drop(req);
+        let dead = self.m.dead;
+        let st = &mut self.m.local_rx;
+        match res {
+            Ok(resp) => {
+                let rx = resp.rx.unwrap_or_default();
+                let data = if rx.chunks.consumed == 1 { core::mem::take(&mut chunks[0]) } else { Bytes::new() };
+                for (i, b) in data.iter().enumerate() {
+                    let o = st.read + i as u64;
+                    ensure(o < st.end && *b == prf_byte(LOCAL_RX_KEY, o), "adv.offending_data_delivered", || {
+                        format!("after `{}`: read on the local bidirectional stream returned byte {:#04x} for offset {}; the peer honestly sent [0..{})", what, b, o, st.end)
+                    })?;
+                }
+                if !dead {
+                    ensure(st.read == st.end || !data.is_empty(), "adv.honest_data_withheld", || format!("read on the local bidirectional stream returned nothing, honest bytes [{}..{}) pending", st.read, st.end))?;
+                    ensure(!rx.status.is_finished(), "adv.premature_eof", || "end of stream on the local bidirectional stream although the peer never finished it".to_string())?;
+                }
+                st.read += data.len() as u64;
+                Ok(!data.is_empty())
+            }
+            Err(e) => {
+                ensure(dead, "adv.honest_read_failed", || format!("read on the local bidirectional stream -> {:?} while the peer was honest", e))?;
+                Ok(false)
+            }
+        }
+    }
+
     /// ask the manager to transmit and check the CREDIT bound on everything it advertises
     fn transmit_and_check_credit(&mut self) -> Result<(), Violation> {
         {
@@ -492,16 +558,18 @@ impl Adv {
                     let id = StreamId::from_varint(msd.stream_id);
                     let v = msd.maximum_stream_data.as_u64();
                     let ty = Ty::of(id.stream_type());
-                    let consumed = if id.initiator() == peer_type {
+                    let (consumed, window) = if id.initiator() == peer_type {
                         let idx = (id.as_varint().as_u64() >> 2) as u8;
                         let st = self.m.stream(ty, idx);
                         st.adv_limit = st.adv_limit.max(v);
-                        st.read
+                        (st.read, win(ty))
                     } else {
-                        0
+                        let st = &mut self.m.local_rx;
+                        st.adv_limit = st.adv_limit.max(v);
+                        (st.read, WIN_BIDI_LOCAL)
                     };
-                    ensure(v <= consumed + STREAM_WIN, "credit.max_stream_data", || {
-                        format!("MAX_STREAM_DATA({:?}, {}) but the application consumed {} bytes and the stream window is {}", id, v, consumed, STREAM_WIN)
+                    ensure(v <= consumed + window, "credit.max_stream_data", || {
+                        format!("MAX_STREAM_DATA({:?}, {}) but the application consumed {} bytes and the window configured for this kind of stream is {}", id, v, consumed, window)
                     })?;
                 }
                 Frame::MaxData(md) => {
@@ -613,11 +681,22 @@ impl Sys for Threadbound<Adv> {
                 v.push(Op::AppOpenLocal(ty));
             }
         }
+        if m.local_opened[Ty::Bidi.ix()] {
+            if m.local_rx.end + 3 <= m.local_rx.adv_limit && conn_room >= 3 {
+                v.push(Op::PeerDataLocal);
+            }
+            if m.local_rx.read < m.local_rx.end {
+                v.push(Op::AppReadLocal);
+            }
+        }
         // ---- adversarial
         for ty in [Ty::Bidi, Ty::Uni] {
             if m.get(ty, 0).fin.is_none() {
                 v.push(Op::OverStreamLimit(ty));
             }
+        }
+        if m.local_opened[Ty::Bidi.ix()] {
+            v.push(Op::OverLocalStreamLimit);
         }
         if s.conn_attack_plan().is_some() {
             v.push(Op::OverConnLimit);
@@ -746,6 +825,23 @@ impl Adv {
                 let res = s.mgr.poll_request(expected, &mut api, &mut req, Some(&cx));
                 ensure(res.is_ok(), "adv.local_write_failed", || format!("write on {:?} -> {:?}", expected, res))?;
                 s.m.local_opened[ty.ix()] = true;
+            }
+            Op::PeerDataLocal => {
+                let id = s.local_id(Ty::Bidi, 0);
+                let end = s.m.local_rx.end;
+                let data = prf_vec(LOCAL_RX_KEY, end, 3);
+                let bytes = s.stream_frame(id, end, &data, false);
+                s.honest(&what, bytes)?;
+                s.m.local_rx.end += 3;
+            }
+            Op::AppReadLocal => {
+                s.read_local(&what)?;
+            }
+            Op::OverLocalStreamLimit => {
+                let id = s.local_id(Ty::Bidi, 0);
+                let end = s.m.local_rx.adv_limit + 1;
+                let bytes = s.stream_frame(id, end - 3, &[JUNK; 3], false);
+                s.offend(&what, "RFC 9000 4.1/19.10: FLOW_CONTROL_ERROR if the sender violates the stream data limit advertised for a locally initiated bidirectional stream (initial_max_stream_data_bidi_local)", &[FLOW], true, bytes)?;
             }
             Op::OverStreamLimit(ty) => {
                 let st = s.m.get(ty, 0);
